@@ -395,6 +395,8 @@ func (g *gen) genCase(n int) {
 	switch {
 	case n == 0:
 		g.tour()
+	case n <= 6 || n%23 == 5:
+		g.sparse(n)
 	case n%97 == 3:
 		g.flood()
 	case x < 38:
@@ -797,4 +799,123 @@ func (g *gen) congestion() {
 		g.do("exit %d", other)
 	}
 	_ = peer.NumUnchoking
+}
+
+// sparse: a torrent larger than 4 GiB of which only a few pieces exist (real hashes, data on
+// demand): the pieces around byte offset 2^32 — below it, containing it when the piece size
+// is not a power of two, above it — the pieces the same requests would hit if the offset
+// were computed modulo 2^32, and the last one.  Requests for blocks just below 2^32,
+// straddling it and beyond it; the payload oracle compares with the true content at
+// (index, begin).
+func (g *gen) sparse(n int) {
+	r := g.r
+	pss := []int64{49152, 147456, 1048576, 1572864, 4194304, 65536, 16384, 245760}
+	ps := pss[n%len(pss)]
+	const two32 = int64(1) << 32
+	jb := two32 / ps // the piece containing byte 2^32 (it starts exactly there iff ps | 2^32)
+	np := jb + 3 + int64(r.Intn(6))
+	length := (np-1)*ps + 1 + int64(r.Intn(int(ps)))
+	if r.Chance(30) {
+		length = np * ps
+	}
+	set := map[int64]bool{0: true, 1: true, 2: true, jb - 1: true, jb: true, jb + 1: true, jb + 2: true, np - 1: true}
+	if r.Bool() {
+		set[jb/2] = true
+	}
+	var real []int64
+	for j := range set {
+		real = append(real, j)
+	}
+	for i := range real { // sort
+		for j := i + 1; j < len(real); j++ {
+			if real[j] < real[i] {
+				real[i], real[j] = real[j], real[i]
+			}
+		}
+	}
+	var sb []byte
+	for i, j := range real {
+		if i > 0 {
+			sb = append(sb, ',')
+		}
+		sb = append(sb, fmt.Sprint(j)...)
+	}
+	g.do("reset %d %d %d 524288 @%s", ps, length, r.U64()>>1, sb)
+	for _, j := range real {
+		switch {
+		case r.Chance(85):
+			g.do("store add %d", j)
+		case r.Bool():
+			g.do("store partial %d", j)
+		}
+	}
+	npeers := 1 + r.Intn(2)
+	for i := 0; i < npeers; i++ {
+		k := g.addPeer(r.Bool(), true, 64)
+		if r.Chance(40) {
+			g.preamble(k)
+		}
+		g.unchoked(k)
+	}
+	req := func() (int64, int64, int64) {
+		l := int64(r.PickInt(16384, 16384, 1, 100, 8000, 16383, 32768, 131072))
+		switch r.Intn(6) {
+		case 0: // ends exactly at 2^32, or just below
+			off := two32 - l - int64(r.PickInt(0, 0, 1, 5000))
+			return off / ps, off % ps, l
+		case 1: // straddles 2^32 (inside one piece iff the piece size does not divide 2^32)
+			off := two32 - 1 - int64(r.Intn(int(l)))
+			if l == 1 {
+				off = two32 - 1
+			}
+			return off / ps, off % ps, l
+		case 2: // starts at 2^32 or just above
+			off := two32 + int64(r.PickInt(0, 0, 1, 16384, 7))
+			return off / ps, off % ps, l
+		}
+		j := real[r.Intn(len(real))]
+		lo := j * ps
+		hi := min(lo+ps, length)
+		pl := hi - lo
+		var b int64
+		switch r.Intn(4) {
+		case 0:
+			b = 0
+		case 1:
+			b = max(0, pl-l)
+		case 2:
+			b = 16384 * int64(r.Intn(int((pl+16383)/16384)))
+		default:
+			b = int64(r.Intn(int(pl)))
+		}
+		return j, b, l
+	}
+	for i := 0; i < 40+r.Intn(40); i++ {
+		k := r.Intn(npeers)
+		hp := g.w.peers[k]
+		if hp.errored || !hp.live {
+			continue
+		}
+		switch x := r.Intn(20); {
+		case x < 9:
+			j, b, l := req()
+			g.do("msg %d 64 0 Request %d %d %d", k, j, b, l)
+		case x < 18:
+			g.do("tick %d 64 0 0 %d", k, g.allowBit(hp))
+		case x < 19:
+			st := hp.p.VerifState()
+			if len(st.Upload) > 0 {
+				q := st.Upload[r.Intn(len(st.Upload))]
+				g.do("msg %d 64 0 Cancel %d %d %d", k, q.Index, q.Begin, q.Length)
+			}
+		default:
+			j := real[r.Intn(len(real))]
+			g.do("store %s %d", []string{"evict", "add", "add"}[r.Intn(3)], j)
+		}
+	}
+	for k := 0; k < npeers; k++ {
+		for i := 0; i < 6; i++ {
+			g.do("tick %d 64 0 0 %d", k, g.allowBit(g.w.peers[k]))
+		}
+	}
 }
